@@ -1189,6 +1189,42 @@ def check_sampler_init(ctx: Ctx, rule: str):
     if not impls:
         ctx.undecided(rule, None, None, "no implementation of AbstractContinuumSampler.init_sampling found", construct="init_sampling", key="sampler-init")
         return
+    # an initialisation starts from nothing: a field of the sampler that an initialisation (or an estimator it calls on self) grows in place -
+    # append / extend / add / update / += / a store into it - must have been bound afresh earlier in the same function, or it still holds what
+    # every earlier initialisation of the same object put there
+    seen_fns = set()
+    for f in impls:
+        todo = [f] + [g for c in walk_no_nested(f.node) if isinstance(c, ast.Call) and isinstance(c.func, ast.Attribute) and norm(c.func.value) == f.self_name
+                      for g in [M.find_method(f.cls, c.func.attr)] if g is not None]
+        for g in todo:
+            if g.qualname in seen_fns or not g.self_name:
+                continue
+            seen_fns.add(g.qualname)
+            order_g = source_order(g.node)
+            fresh = {}
+            for s_ in walk_no_nested(g.node):
+                if isinstance(s_, ast.Assign):
+                    for t in s_.targets:
+                        if isinstance(t, ast.Attribute) and norm(t.value) == g.self_name:
+                            fresh.setdefault(t.attr, order_g[id(s_)])
+            for x in walk_no_nested(g.node):
+                fld = None
+                if isinstance(x, ast.Call) and isinstance(x.func, ast.Attribute) and x.func.attr in ("append", "extend", "add", "update", "insert", "setdefault") and \
+                        isinstance(x.func.value, ast.Attribute) and norm(x.func.value.value) == g.self_name:
+                    fld = x.func.value.attr
+                elif isinstance(x, ast.AugAssign) and not getattr(x, "rebinds", False):
+                    t = x.target
+                    while isinstance(t, ast.Subscript):
+                        t = t.value
+                    if isinstance(t, ast.Attribute) and norm(t.value) == g.self_name:
+                        fld = t.attr
+                if fld is None:
+                    continue
+                if fld in fresh and fresh[fld] < order_g[id(x)]:
+                    continue
+                ctx.bad(rule, g, x, f"{g.qualname} grows `{g.self_name}.{fld}` in place (`{norm(x)[:70]}`) without binding it afresh first: a sampler initialised a second time still "
+                        f"holds what the first initialisation put there, so what it measures - and every sample drawn afterwards - depends on the object's history",
+                        key=f"sampler-init:accumulates:{g.qualname}:{fld}")
     for f in impls:
         ctx.functions_analysed.add(f.qualname)
         sn = f.self_name
@@ -1379,6 +1415,26 @@ def check_class_state(ctx: Ctx, rule: str = "R-CLASS-STATE", judge: bool = False
         for attr, v in c.class_attrs.items():
             mutable = isinstance(v, (ast.List, ast.Dict, ast.Set, ast.ListComp, ast.DictComp, ast.SetComp)) or \
                 (isinstance(v, ast.Call) and (dotted(v.func) in _MUTABLE_CTORS or (dotted(v.func) or "").split(".")[-1] in ("SortedSet", "SortedDict", "SortedList", "defaultdict")))
+            # an instance of a class of the package, made once when the class body runs: one object for every instance that reads it through self / the class
+            shared_obj = isinstance(v, ast.Call) and (dotted(v.func) or "").split(".")[-1] in M.classes and not mutable
+            if shared_obj:
+                n += 1
+                users = [(g, x) for g in list(c.methods.values()) + [m for k in M.subclasses.get(c.name, []) for m in k.methods.values()]
+                         for x in walk_no_nested(g.node) if isinstance(x, ast.Attribute) and x.attr == attr and isinstance(x.ctx, ast.Load)]
+                if users:
+                    g, x = users[0]
+                    # does what reads it store into it, directly or through the local it is bound to?
+                    names = {t.id for s_ in walk_no_nested(g.node) if isinstance(s_, ast.Assign) and any(y is x for y in ast.walk(s_.value)) for t in s_.targets if isinstance(t, ast.Name)}
+                    touched = [s_ for s_ in walk_no_nested(g.node) if isinstance(s_, (ast.Assign, ast.AugAssign)) for t in (s_.targets if isinstance(s_, ast.Assign) else [s_.target])
+                               if isinstance(t, ast.Attribute) and isinstance(t.value, ast.Name) and t.value.id in names]
+                    if touched and c.name in analysed_classes:
+                        ctx.bad(rule, g, touched[0], f"`{c.name}.{attr} = {norm(v)[:50]}` is one object made when the class body runs; {g.qualname} takes it (`{norm(x)}`) and then "
+                                f"stores into it (`{norm(touched[0])[:60]}`): every instance that relies on it shares what the last one wrote", key=f"class-state:{c.name}.{attr}",
+                                construct=f"{c.name}.{attr}")
+                    else:
+                        ctx.undecided(rule, g, x, f"`{c.name}.{attr} = {norm(v)[:50]}` is one object shared by every instance of {c.name}; {g.qualname} reads it as if it were its own "
+                                      f"(not a verdict)", key=f"class-state:{c.name}.{attr}", construct=f"{c.name}.{attr}")
+                continue
             if not mutable:
                 continue
             n += 1
